@@ -521,7 +521,7 @@ void zkb_mpc(const Params& p, const LowMC& lm, const BV key[3], const BV& pt, co
 }
 
 bytes zkb_sign(const Params& p, const bytes& sk, const bytes& Cc, const bytes& pt, const bytes& msg,
-               Trace* tr, const Challenge* forced) {
+               Trace* tr, const Challenge* forced, const bytes* extra) {
   const int hb = shake_bits(p), T = p.T;
   const LowMC& lm = lm_for(p);
   bytes kdf;
@@ -532,6 +532,8 @@ bytes zkb_sign(const Params& p, const bytes& sk, const bytes& Cc, const bytes& p
     s.absorb(Cc);
     s.absorb(pt);
     s.absorb_le16(p.n);
+    if (extra && !extra->empty())
+      s.absorb(*extra);
     kdf = s.squeeze((size_t)T * 3 * p.seed + 32);
   }
   bytes salt(kdf.end() - 32, kdf.end());
@@ -1075,9 +1077,9 @@ bytes kkw_sign(const Params& p, const bytes& sk, const bytes& Cc, const bytes& p
 } // namespace
 
 bytes sign(const Params& p, const bytes& sk, const bytes& C, const bytes& pt, const bytes& msg, Trace* tr,
-           const Challenge* forced) {
+           const Challenge* forced, const bytes* extra) {
   uint64_t before = perm_count;
-  bytes out = p.kkw ? kkw_sign(p, sk, C, pt, msg, tr, forced) : zkb_sign(p, sk, C, pt, msg, tr, forced);
+  bytes out = p.kkw ? kkw_sign(p, sk, C, pt, msg, tr, forced) : zkb_sign(p, sk, C, pt, msg, tr, forced, extra);
   if (tr)
     tr->perms = perm_count - before;
   return out;
